@@ -186,9 +186,15 @@ PathKnown(from, to) ==
     /\ \A b \in SeqSet(RevertList(from, to)) \cup SeqSet(ApplyList(from, to)) : b \in app
 Dist(from, to) == Len(RevertList(from, to)) + Len(ApplyList(from, to))
 
+\* the premise of a rebase: every proof-carrying element of the set is unspent at `from` (the code
+\* validates the proofs against the state of the claimed basis first; an element that does not exist
+\* there -- a contract formed later, the chain index element of a block not yet mined -- has none)
+ProofsAt(s, from) == \A j \in 1..Len(s) : (Need(s[j].t) \ s[j].eph) \subseteq UtxoAt(from)
+
 RebaseWalk(s, from, to) ==     \* s: sequence of [t, eph]; from/to: nodes or 0 (unknown)
     IF from = 0 \/ to = 0 \/ from \notin Nodes \/ to \notin Nodes THEN [err |-> TRUE, set |-> <<>>]
     ELSE IF ~PathKnown(from, to) \/ Dist(from, to) > MaxDist THEN [err |-> TRUE, set |-> <<>>]
+    ELSE IF ~ProofsAt(s, from) THEN [err |-> TRUE, set |-> <<>>]
     ELSE LET r == WalkRev(s, RevertList(from, to), 1) IN
          IF r.err THEN r ELSE WalkApp(s, ApplyList(from, to), 1)
 
@@ -204,6 +210,7 @@ RebaseMustFail(s, from, to) ==
     \/ from = 0 \/ to = 0 \/ from \notin Nodes \/ to \notin Nodes
     \/ ~PathKnown(from, to)
     \/ Dist(from, to) > MaxDist
+    \/ ~ProofsAt(s, from)
     \/ \E j \in 1..Len(s) : (Need(s[j].t) \ s[j].eph) \cap RevertedCreates(from, to) # {}
 \* under DevEphDrop an error is additionally tolerated when an instance has an ephemeral input
 RebaseMayFail(s, from, to) ==
